@@ -16,6 +16,14 @@ package main
 //             NodeHostDir, a directory of its own)
 //   late=1:   after the export (and the post proposals) the survivor takes a
 //             snapshot of its own and compacts its log beyond the export index
+//   crash=<n>: power failures inside ImportSnapshot at up to n of its file-system
+//             operations (crash.go), on the survivor and on one new host
+//   comp=none|snappy: Config.SnapshotCompressionType of every replica
+//   sess=1:   (regular / concurrent state machine) a registered client session
+//             with a completed and an unacknowledged proposal is part of the
+//             exported state and is used again on the repaired shard
+//   hosts=3:  the shard really runs on three hosts; replicas 2 and 3 are stopped
+//             for good before the export
 //   hist ops: nv3 (add non-voting 3), nv5rm5 (add non-voting 5, remove it),
 //             v2 (add voting 2: quorum is lost afterwards), w4 (add witness 4: ditto)
 //   pre=<map>: the real repair first runs the tool with this preliminary list on
@@ -31,12 +39,14 @@ package main
 //   <id> trial <n> <name> REFUSED | ACCEPTED rec=<membership recorded in the log store> | FIRST-REFUSED
 //   <id> import <replica> OK|ERR
 //   <id> restart members=[..] nonvoting=[] witness=[] removed=[..] state=EXPORTED propose=OK
+//   <id> session dup=CACHED next=OK
 //   <id> restart2 members=[..] state=EXPORTED+LATER propose=OK     (every host stopped and started again)
 
 import (
 	"bytes"
 	"context"
 	"crypto/sha256"
+	"errors"
 	"fmt"
 	"io"
 	"path/filepath"
@@ -46,6 +56,7 @@ import (
 	"time"
 
 	"github.com/lni/dragonboat/v4"
+	"github.com/lni/dragonboat/v4/client"
 	"github.com/lni/dragonboat/v4/config"
 	chantrans "github.com/lni/dragonboat/v4/plugin/chan"
 	tanplugin "github.com/lni/dragonboat/v4/plugin/tan"
@@ -271,6 +282,7 @@ type world struct {
 	smKind string
 	db     string
 	wal    string // NodeHostConfig.WALDir: none | same (= NodeHostDir) | distinct
+	comp   string // Config.SnapshotCompressionType: none | snappy
 	extErr string
 }
 
@@ -297,13 +309,34 @@ func (w *world) nhConfig(dir, addr string) config.NodeHostConfig {
 	return cfg
 }
 
-func shardConfig(replica uint64) config.Config {
-	return config.Config{ShardID: e2eShard, ReplicaID: replica, ElectionRTT: 10, HeartbeatRTT: 1,
+func (w *world) shardConfig(replica uint64) config.Config {
+	c := config.Config{ShardID: e2eShard, ReplicaID: replica, ElectionRTT: 10, HeartbeatRTT: 1,
 		SnapshotEntries: 0, CompactionOverhead: 2}
+	if w.comp == "snappy" {
+		c.SnapshotCompressionType = config.Snappy
+	}
+	return c
+}
+
+// proposeWith makes a proposal of a registered client session; as the client
+// library asks, only a timed out proposal is retried (same series id).
+func proposeWith(nh *dragonboat.NodeHost, cs *client.Session, cmd string) (sm.Result, error) {
+	var res sm.Result
+	var err error
+	for i := 0; i < 40; i++ {
+		ctx, cancel := ctxT(2 * time.Second)
+		res, err = nh.SyncPropose(ctx, cs, []byte(cmd))
+		cancel()
+		if err == nil || !(errors.Is(err, dragonboat.ErrTimeout) || errors.Is(err, dragonboat.ErrShardNotReady) || errors.Is(err, dragonboat.ErrSystemBusy)) {
+			return res, err
+		}
+		time.Sleep(20 * time.Millisecond)
+	}
+	return res, err
 }
 
 func (w *world) start(nh *dragonboat.NodeHost, dir string, replica uint64, initial map[uint64]string) error {
-	cfg := shardConfig(replica)
+	cfg := w.shardConfig(replica)
 	switch w.smKind {
 	case "concurrent":
 		return nh.StartConcurrentReplica(initial, false, func(uint64, uint64) sm.IConcurrentStateMachine {
@@ -624,7 +657,7 @@ func e2e(id, rest string, out func(string, ...interface{}), st *vh.Stats) {
 	}
 	f := fields(head)
 	fs := hooks.NewMemFS()
-	w := &world{fs: fs, root: "/c20/" + id, smKind: f["sm"], db: f["db"], wal: f["wal"]}
+	w := &world{fs: fs, root: "/c20/" + id, smKind: f["sm"], db: f["db"], wal: f["wal"], comp: f["comp"]}
 	st.Count("e2e.wal." + map[bool]string{true: "none", false: w.wal}[w.wal == ""])
 	if f["fs"] == "disk" {
 		// the operating system's file system, below the run's output directory
@@ -659,7 +692,32 @@ func e2e(id, rest string, out func(string, ...interface{}), st *vh.Stats) {
 			nh.Close()
 		}
 	}()
-	if err := w.start(nh, dir1, 1, map[uint64]string{1: addrOf(1)}); err != nil {
+	initial := map[uint64]string{1: addrOf(1)}
+	var gone []*dragonboat.NodeHost // the replicas that are going to be lost
+	defer func() {
+		for _, g := range gone {
+			g.Close()
+		}
+	}()
+	if f["hosts"] == "3" {
+		// a real three replica shard; replicas 2 and 3 are lost for good before the export
+		initial = map[uint64]string{1: addrOf(1), 2: addrOf(2), 3: addrOf(3)}
+		for _, k := range []uint64{2, 3} {
+			d := fmt.Sprintf("%s/gone%d", w.root, k)
+			g, err := dragonboat.NewNodeHost(w.nhConfig(d, addrOf(k)))
+			if err != nil {
+				out("export FAILED newnodehost %d", k)
+				return
+			}
+			gone = append(gone, g)
+			if err := w.start(g, d, k, initial); err != nil {
+				out("export FAILED start %d", k)
+				return
+			}
+		}
+		st.Count("e2e.hosts3")
+	}
+	if err := w.start(nh, dir1, 1, initial); err != nil {
 		out("export FAILED start")
 		return
 	}
@@ -672,6 +730,31 @@ func e2e(id, rest string, out func(string, ...interface{}), st *vh.Stats) {
 			out("export FAILED propose")
 			return
 		}
+	}
+	// a registered client session with one completed proposal and one whose
+	// reply the client never saw: both are part of the exported state
+	var cs *client.Session
+	var pending sm.Result
+	if f["sess"] == "1" && w.smKind != "ondisk" {
+		if err := retry(func(ctx context.Context) error {
+			var e error
+			cs, e = nh.SyncGetSession(ctx, e2eShard)
+			return e
+		}); err != nil {
+			out("export FAILED session")
+			return
+		}
+		if _, err := proposeWith(nh, cs, "sess1=a"); err != nil {
+			out("export FAILED session-propose")
+			return
+		}
+		cs.ProposalCompleted()
+		var err error
+		if pending, err = proposeWith(nh, cs, "sess2=b"); err != nil {
+			out("export FAILED session-propose")
+			return
+		}
+		st.Count("e2e.session")
 	}
 	// a local snapshot: the host's existing data then has a snapshot directory
 	// and a snapshot record of its own
@@ -709,6 +792,11 @@ func e2e(id, rest string, out func(string, ...interface{}), st *vh.Stats) {
 			st.Count("e2e.hist." + h)
 		}
 	}
+	// the quorum is lost
+	for _, g := range gone {
+		g.Close()
+	}
+	gone = nil
 	exportDir := w.root + "/export"
 	_ = fs.MkdirAll(exportDir, 0755)
 	var index uint64
@@ -912,6 +1000,32 @@ func e2e(id, rest string, out func(string, ...interface{}), st *vh.Stats) {
 		}
 	}
 
+	// ---- power failures inside ImportSnapshot (crash.go)
+	if cm := f["crash"]; cm != "" && cm != "0" {
+		e2eStage = "crash points of ImportSnapshot"
+		max := int(u64(cm))
+		half, rerun, points := 0, 0, 0
+		cids := make([]uint64, 0, len(finalMembers))
+		for k := range finalMembers {
+			cids = append(cids, k)
+		}
+		sort.Slice(cids, func(i, j int) bool { return cids[i] < cids[j] })
+		doneNew := false
+		for _, k := range cids {
+			host := ""
+			if k == 1 {
+				host = dir1 // the survivor with its existing data
+			} else if doneNew {
+				continue // one new host is enough
+			} else {
+				doneNew = true
+			}
+			h, r, p := w.crashTrials(id, st, srcDir, host, k, finalMembers, index, oldss, origPayload, max)
+			half, rerun, points = half+h, rerun+r, points+p
+		}
+		st.Distribution["crash.points"] += points
+		out("crash half=%d rerun-failed=%d", half, rerun)
+	}
 	e2eStage = "import and first restart"
 	// ---- the repair: import on every listed host, restart
 	ids := make([]uint64, 0, len(finalMembers))
@@ -1015,6 +1129,36 @@ func e2e(id, rest string, out func(string, ...interface{}), st *vh.Stats) {
 	}
 	out("restart members=%s nonvoting=%s witness=%s removed=%s state=%s propose=%s",
 		showMap(ms.Nodes), showMap(ms.NonVotings), showMap(ms.Witnesses), showSet(removed), state, prop)
+	sessionOK := true
+	if cs != nil && prop == "OK" {
+		// the client of the lost shard goes on with its session on the repaired one:
+		// the proposal it never saw the reply of is answered from the session's
+		// history and not applied again, the next one is applied
+		dup, next := "CACHED", "OK"
+		res, err := proposeWith(first, cs, "sess2=DUP")
+		switch {
+		case err != nil:
+			dup = "REJECTED"
+		case res.Value != pending.Value:
+			dup = "OTHER-RESULT"
+		}
+		if v, e := first.StaleRead(e2eShard, "dump"); e == nil && strings.Contains(v.(string), "sess2=DUP") {
+			dup = "APPLIED-AGAIN"
+		}
+		if err == nil {
+			cs.ProposalCompleted()
+			if _, err := proposeWith(first, cs, "sess3=c"); err != nil {
+				next = "REJECTED"
+			}
+		} else {
+			next = "-"
+		}
+		out("session dup=%s next=%s", dup, next)
+		if dup != "CACHED" || next != "OK" {
+			sessionOK = false
+			st.Violation(id, fmt.Sprintf("SESSION: the client session registered before the export does not work on the repaired shard: duplicate proposal %s, next proposal %s", dup, next))
+		}
+	}
 	// ---- monitor: the property's statement
 	if showMap(ms.Nodes) != showMap(finalMembers) || len(ms.NonVotings) != 0 || len(ms.Witnesses) != 0 {
 		st.Violation(id, "MEMBERSHIP: membership after repair is not the given list: "+showMap(ms.Nodes))
@@ -1045,6 +1189,9 @@ func e2e(id, rest string, out func(string, ...interface{}), st *vh.Stats) {
 			}
 		}
 		later["after"] = "repair"
+		if cs != nil && sessionOK {
+			later["sess3"] = "c"
+		}
 		wantLater := dumpMap(later)
 		// every replica has applied the proposal before it is stopped
 		for _, k := range ids {
@@ -1142,16 +1289,25 @@ func genE2E(r *vh.Rand, i int, tier string) string {
 	// history and resulting membership of the export
 	old := pb.Membership{Addresses: map[uint64]string{1: addrOf(1)}, NonVotings: map[uint64]string{}, Witnesses: map[uint64]string{}, Removed: map[uint64]bool{}}
 	var hist []string
+	hosts3 := i%4 == 3
+	if hosts3 {
+		old.Addresses[2] = addrOf(2)
+		old.Addresses[3] = addrOf(3)
+	}
 	if i%2 == 0 || r.Bool() {
 		hist = append(hist, "nv5rm5")
 		old.Removed[5] = true
 	}
-	if i%2 == 0 || r.Bool() {
+	if !hosts3 && (i%2 == 0 || r.Bool()) {
 		hist = append(hist, "nv3")
 		old.NonVotings[3] = addrOf(3)
 	}
 	post := 1
-	switch (i + i/3) % 3 {
+	hk := (i + i/3) % 3
+	if hosts3 {
+		hk, post = 1, 0 // the quorum is already lost when the export is taken
+	}
+	switch hk {
 	case 0:
 		hist = append(hist, "v2")
 		old.Addresses[2] = addrOf(2)
@@ -1259,6 +1415,22 @@ func genE2E(r *vh.Rand, i int, tier string) string {
 	// NodeHostConfig.WALDir of every host; a survivor that keeps working after the
 	// export (only while it still has its quorum)
 	wal := []string{"distinct", "same", "none"}[(i+i/6)%3]
-	return fmt.Sprintf("e2e sm=%s db=%s fs=%s wal=%s props=%d hist=%s post=%d late=%d old=%s members=%s pre=%s | %s",
-		smK, db, fsK, wal, 3+r.Intn(20), hs, post, post, showOld(old), fmtMap(members), pre, strings.Join(trials, " ; "))
+	// snapshot compression of every replica; a client session in the exported
+	// state; a real three replica shard that loses replicas 2 and 3
+	comp := "none"
+	if i%3 == 1 || i%4 == 2 {
+		comp = "snappy"
+	}
+	sess := 1
+	hosts := 1
+	if hosts3 {
+		hosts = 3
+	}
+	// power failures inside ImportSnapshot: how many of its operations are tried
+	crash := 40
+	if tier == "thorough" {
+		crash = 2000
+	}
+	return fmt.Sprintf("e2e sm=%s db=%s fs=%s wal=%s comp=%s sess=%d hosts=%d props=%d hist=%s post=%d late=%d crash=%d old=%s members=%s pre=%s | %s",
+		smK, db, fsK, wal, comp, sess, hosts, 3+r.Intn(20), hs, post, post, crash, showOld(old), fmtMap(members), pre, strings.Join(trials, " ; "))
 }
